@@ -173,6 +173,27 @@ func registerHeadSync(c *vk.Ctx) {
 				return
 			}
 		}
+		// the same range many times over, for every shape of range (aligned with a division or not) and both values of
+		// the element flag taken uniformly: a range that is not a stored division is answered with its elements whatever
+		// the flag says, so what bounds the answer may not depend on the flag.
+		for _, from := range vals {
+			for _, to := range vals {
+				if to < from {
+					continue
+				}
+				for _, el := range []bool{false, true} {
+					for _, n := range []int{256, 4096} {
+						rs := make([]*spacesyncproto.HeadSyncRange, n)
+						for i := range rs {
+							rs[i] = &spacesyncproto.HeadSyncRange{From: from, To: to, Elements: el}
+						}
+						if !yield("F2", fmt.Sprintf("F2:%d-times-range(%d,%d,elements=%v)", n, from, to, el), mk(rs...)) {
+							return
+						}
+					}
+				}
+			}
+		}
 		for _, dt := range []spacesyncproto.DiffType{0, 1, 2, 3, 99, -1} {
 			b, _ := (&spacesyncproto.HeadSyncRequest{SpaceId: "space", Ranges: []*spacesyncproto.HeadSyncRange{full}, DiffType: dt}).MarshalVT()
 			if !yield("F2", fmt.Sprintf("F2:diffType=%d", dt), b) {
